@@ -311,6 +311,14 @@ func (r *rewriter) expr(e ast.Expr) ast.Expr {
 		}
 		if sel, ok := n.Fun.(*ast.SelectorExpr); ok {
 			if x, ok := sel.X.(*ast.Ident); ok {
+				if x.Name == "runtime" && sel.Sel.Name == "SetFinalizer" {
+					// finalizers run on the garbage collector's goroutine, outside the scheduler, at a time
+					// nothing controls: the finalizer is dropped (leftover threads are torn down per execution)
+					total.Gosched++
+					r.gosched++
+					r.needVrt = true
+					return vrtCall("SetFinalizer", n.Args...)
+				}
 				if x.Name == "runtime" && sel.Sel.Name == "Gosched" && len(n.Args) == 0 {
 					total.Gosched++
 					r.gosched++
@@ -517,7 +525,7 @@ func (r *rewriter) run() {
 	ast.Inspect(f, func(n ast.Node) bool {
 		if sel, ok := n.(*ast.SelectorExpr); ok {
 			if x, ok := sel.X.(*ast.Ident); ok {
-				if x.Name == "runtime" && sel.Sel.Name != "Gosched" {
+				if x.Name == "runtime" && sel.Sel.Name != "Gosched" && sel.Sel.Name != "SetFinalizer" {
 					usesRuntimeOther = true
 				}
 				if x.Name == "context" && sel.Sel.Name != "WithTimeout" && sel.Sel.Name != "WithDeadline" {
